@@ -123,12 +123,14 @@ Definition mod_switch_value (e : cexpr) : option lit :=
   | None => None
   end.
 
-(* array<T, e>: resolveType (10100).  ASize n = fixed size n; ARuntime = the size expression could
-   not be evaluated and the array silently becomes runtime-sized; AError = "array size must be > 0" *)
+(* array<T, e>: resolveType (10113, after fix ead2675): the size is evaluated as a SIGNED int64 with
+   evalConstantIntExpr; n <= 0 is "array size must be greater than 0", otherwise the count is uint32(n).
+   ASize n = fixed size n; ARuntime = the size expression could not be evaluated and the array silently
+   becomes runtime-sized; AError = the error *)
 Inductive asize := ASize (n : Z) | ARuntime | AError.
 Definition mod_array_size (e : cexpr) : asize :=
   match eval_constant_int e with
-  | Some (_, v) => if u64 v =? 0 then AError else ASize (to32 (u64 v))
+  | Some (_, v) => if v <=? 0 then AError else ASize (to32 v)
   | None => ARuntime
   end.
 
